@@ -255,13 +255,16 @@ def mem_get(p, pid, tag):
     return dget(dget(p._checkpoints, pid), tag)
 
 
-@contract('plumpy.persistence.InMemoryPersister.load_checkpoint', props=['C14'])
+@contract('plumpy.persistence.InMemoryPersister.load_checkpoint', props=['C14', 'C08'])
 def mem_load(self, pid, tag=None):
+    """what is handed out is a COPY of the stored snapshot (so that running the loaded process cannot change what is stored: the
+    same checkpoint can be resumed again); the store itself is untouched"""
     requires(wf_mem(self))
     modifies()
-    ensures('returns_snapshot', mem_has(self, pid, tag) and ret is mem_get(self, pid, tag))
+    ensures('returns_a_copy_of_the_snapshot', mem_has(self, pid, tag) and copied(ret, mem_get(self, pid, tag))
+            and implies(type_is(mem_get(self, pid, tag), Bundle), fresh(ret) and ret is not mem_get(self, pid, tag)))
     raises(KeyError, not mem_has(self, pid, tag))
-    replay('returns_snapshot', 'persister_history')
+    replay('returns_a_copy_of_the_snapshot', 'checkpoint_resume')
     replay('raises_only_declared', 'persister_history')
 
 
